@@ -28,6 +28,9 @@ RULE = ("operations in the simplified form (tree of response-keyed fields, each 
         "deferred runtimes, under ALL completion orders when it has <= 4 (quick) / <= 6 (thorough) tasks, else FIFO + LIFO + "
         "random orders; plus REAL ThreadPoolExecutor pools with 1 and 2 workers, resolvers still in flight when callbacks are attached, "
         "nested futures submitted from pool tasks, hard 4 s timeout = failing case. "
+        "fields served either by explicit resolvers or by the library default resolver from METHODS of the root / parent objects "
+        "(sync, `async def`, returning runtime.submit(...)); cross-runtime HISTORIES over user-defined awaitable / Future-subclass "
+        "return values (each run compared with the same run on fresh classes, repeated by ctx.later); "
         "plus REAL schemas whose fields take arguments with awkward names (func, fn, args, kwargs, self, loop, ...) passed explicitly / by default. "
         "distinct non-trivial = distinct (operation, schedule) with >= 1 deferred task")
 ASSUMPTIONS = [
@@ -215,6 +218,10 @@ class Checker:
                 ctx.nontrivial((dumps(W.to_model(case), sort_keys=True), tuple(obs["choices"])))
         if not ctx.model_ok:
             return
+        if obs.get("nomodel"):
+            # an `async def` method starts its body only when the loop schedules it: call order differs from the callback model
+            ctx.stat("model-comparison-skipped(async-def method)")
+            return
         if config == "asyncio" and "ready" in W.features(case):
             # an already finished awaitable is only looked at when the loop next runs: the call order (and with it the
             # queue the schedule indexes) legitimately differs from the callback model; the direct oracle still applies
@@ -391,6 +398,9 @@ def run_streams(ctx, chk, budget_frac=0.8, kinds=None):
             ctx.notes.append("exhaustive stream cut by the time budget")
             break
         ctx.stat("stream=exhaustive")
+        if rng.random() < 0.3:
+            case = dict(case, serve="methods")
+            ctx.stat("serve=methods")
         chk.check(case, rng)
     # random
     i = 0
@@ -434,7 +444,7 @@ def real_pool_cases(rng, n_random):
         c = dict(cases[4], style=style)
         cases.append(c)
     for _ in range(n_random):
-        cases.append(W.gen_case(rng, depth=2, p_sync=0.2, p_ready=0.0, p_nested=0.3, max_sub=2))
+        cases.append(W.gen_case(rng, depth=2, p_sync=0.2, p_ready=0.0, p_nested=0.3, max_sub=2, p_methods=0.0))
     return cases
 
 
@@ -803,6 +813,169 @@ def runtime_api_stream(ctx):
     ctx.extra["runtime_api_runs"] = n
 
 
+# ---------------------------------------------------------------------------
+# cross-runtime HISTORIES in one process (outside the Lean model: direct oracle + ctx.later)
+
+HISTORY_SDL = "type Query { dummy: Int } type Mutation { m1: O m2: O m3: Int } type O { x: Int }"
+
+
+def _history_classes():
+    """fresh user-defined classes (type-keyed caches of the runtimes see them for the first time)"""
+    import asyncio
+    from concurrent.futures import Future
+
+    class Plain:
+        def __init__(self, x):
+            self.x = x
+
+    class Box:
+        """awaitable but NOT a concurrent Future: deferred under asyncio, a plain object under the thread pool"""
+
+        def __init__(self, log, name, x, fail=False):
+            self.log, self.name, self.x, self.fail = log, name, x, fail
+
+        def __await__(self):
+            self.log.append("await-start " + self.name)
+            yield from asyncio.sleep(0).__await__()
+            self.log.append("await-end " + self.name)
+            if self.fail:
+                raise W._resolver_error_cls()("write %s failed" % self.name)
+            return Plain(self.x)
+
+    class Fut(Future):
+        """a Future subclass: deferred under the thread pool, a plain (attribute-bearing) object under asyncio"""
+        x = 77
+
+    return Plain, Box, Fut
+
+
+def history_stream(ctx, prop):
+    """
+    Sequences of executions in ONE process that alternate runtimes over resolver return values of user-defined classes on
+    which the runtimes' deferred-value predicates disagree. Each (configuration, class kind) outcome must equal the
+    outcome of the same run in isolation = with classes no runtime has seen yet; `ctx.later` repeats the calls at the end.
+    """
+    import asyncio
+    from concurrent.futures import Future
+    from py_gql import build_schema, process_graphql_query
+    from py_gql.execution import Executor
+    from py_gql.execution.runtime import AsyncIORuntime, ThreadPoolRuntime
+
+    def make_schema(classes, kind, log):
+        Plain, Box, Fut = classes
+        schema = build_schema(HISTORY_SDL)
+
+        def value(name, x, fail=False):
+            if kind == "box":
+                return Box(log, name, x, fail)
+            f = Fut()
+            if fail:
+                f.set_exception(W._resolver_error_cls()("write %s failed" % name))
+            else:
+                f.set_result(Plain(x))
+            return f
+
+        def m1(root, ctx_, info, **kw):
+            log.append("call m1")
+            return value("m1", 1)
+
+        def m2(root, ctx_, info, **kw):
+            log.append("call m2")
+            return value("m2", 2, fail=True)
+
+        def m3(root, ctx_, info, **kw):
+            log.append("call m3")
+            return 3
+
+        async def am1(root, ctx_, info, **kw):
+            return m1(root, ctx_, info)
+
+        async def am2(root, ctx_, info, **kw):
+            return m2(root, ctx_, info)
+
+        async def am3(root, ctx_, info, **kw):
+            return m3(root, ctx_, info)
+        return schema, (m1, m2, m3), (am1, am2, am3)
+
+    def run_cfg(cfg, classes, kind):
+        log = []
+        schema, plain, coros = make_schema(classes, kind, log)
+        fns = coros if cfg == "asyncio" else plain
+        for name, fn in zip(("m1", "m2", "m3"), fns):
+            schema.register_resolver("Mutation", name, fn)
+        query = "mutation { m1 { x } m2 { x } m3 }"
+        try:
+            with W.watchdog():
+                if cfg == "asyncio":
+                    loop = W.private_loop()
+
+                    async def main():
+                        return await process_graphql_query(
+                            schema, query, runtime=AsyncIORuntime(execute_blocking_functions_in_thread=False), executor_cls=Executor)
+                    res = loop.run_until_complete(asyncio.wait_for(main(), 20))
+                else:
+                    class _W:
+                        queue, table, trace = [], {}, []
+
+                        def ev(self, *a):
+                            pass
+                    w = _W()
+                    w.queue = []
+                    rt = ThreadPoolRuntime(max_workers=1)
+                    rt._inner.shutdown(wait=False)
+                    rt._inner = W.ManualExecutor(w)
+                    fut = process_graphql_query(schema, query, runtime=rt, executor_cls=Executor)
+                    while not fut.done() and w.queue:
+                        e = w.queue.pop(0)
+                        try:
+                            r = e.fn(*e.args, **e.kwargs)
+                        except W.Watchdog:
+                            raise
+                        except BaseException as err:  # noqa
+                            e.fut.set_exception(err)
+                        else:
+                            e.fut.set_result(r)
+                    if not fut.done():
+                        return ["pending", log]
+                    res = fut.result()
+            return ["ok", dumps(res.data), W.canon_errors(res.errors), log]
+        except W.Watchdog:
+            return ["hang", log]
+        except Exception as err:  # noqa
+            return ["failed", type(err).__name__, log]
+
+    isolated = {}
+    n = 0
+    orders = (("asyncio", "threadpool", "asyncio", "threadpool"), ("threadpool", "asyncio", "threadpool", "asyncio"))
+    for kind in ("box", "fut"):
+        for order in orders:
+            classes = _history_classes()
+            for step, cfg in enumerate(order):
+                got = run_cfg(cfg, classes, kind)
+                ctx.count()
+                n += 1
+                key = (cfg, kind)
+                if step == 0 and key not in isolated:
+                    isolated[key] = got                   # first contact of fresh classes with this runtime
+                    ctx.stat("history:isolated:%s:%s:%s" % (cfg, kind, got[0]))
+                    continue
+                if key not in isolated:
+                    fresh = run_cfg(cfg, _history_classes(), kind)
+                    isolated[key] = fresh
+                if got != isolated[key]:
+                    ctx.fail("%s:history-dependent:%s:%s:after-%s" % (prop.lower(), cfg, kind, "+".join(order[:step]) or "nothing"),
+                             "the same mutation on %s gives another outcome after the other runtime has seen the same resolver "
+                             "value classes (%s)" % (cfg, kind),
+                             {"stream": "history", "config": cfg, "kind": kind, "order": list(order[:step + 1]),
+                              "in_isolation": isolated[key], "got": got})
+            # repeat at the very end of the run as well
+            for cfg in ("asyncio", "threadpool"):
+                ctx.later("%s-history:%s:%s" % (prop, cfg, kind),
+                          (lambda cfg=cfg, classes=classes, kind=kind: run_cfg(cfg, classes, kind)),
+                          isolated[(cfg, kind)], {"config": cfg, "kind": kind, "order": list(order)})
+    ctx.extra["history_runs"] = n
+
+
 def run(ctx):
     W.quiet()
     chk = Checker(ctx, "C08")
@@ -811,6 +984,7 @@ def run(ctx):
         real_pool_stage(ctx, "C08", n_random=6 if ctx.tier == "quick" else 40)
         args_stream(ctx, 12 if ctx.tier == "quick" else 120)
         runtime_api_stream(ctx)
+        history_stream(ctx, "C08")
     finally:
         W.close_private_loop()
     ctx.extra["configurations"] = list(CONFIGS)
@@ -820,6 +994,13 @@ def run(ctx):
 def replay(ctx, data):
     W.quiet()
     inp = data.get("input", {})
+    if inp.get("stream") == "history":
+        before = len(ctx.found)
+        try:
+            history_stream(ctx, "C08")
+        finally:
+            W.close_private_loop()
+        return len([f for f in ctx.found[before:] if f["kind"] == "property"]) == 0
     if inp.get("stream") == "runtime-api":
         before = len(ctx.found)
         saved = globals()["RUNTIME_API_QUERIES"]
